@@ -52,6 +52,7 @@ class TableOps:
             kind, target = link_key(ev.args[1], st)
             amt = self._amount(st, tb, ev.args[1])
             self.sites["sub"].add(ev.b)
+            eng.obl("SYM-4", "sub:remove", ev.b)
             return add(st, ("top", "sub", tb, kind, target, amt))
         if ev.op == "insert" and len(ev.args) >= 3:
             kind, target = link_key(ev.args[1], st)
@@ -60,6 +61,7 @@ class TableOps:
             if g is not None and table_of(g[3][0]) == tb:
                 # re-insertion of a reduced count
                 amt = self._amount(st, tb, ev.args[1])
+                eng.obl("SYM-4", "sub:reinsert", ev.b)
                 nonzero = mentions(v, lambda x: x[0] == "call" and x[2].startswith("core::num::NonZero") and x[2].endswith("::get"))
                 how = [f[3] for f in st.flags if f[0] == "subamt" and f[1] == g]
                 if not nonzero:
@@ -96,6 +98,7 @@ class TableOps:
                     elif v[3] == old:
                         amt = v[2]
                 self.sites["add"].add(ev.b)
+                eng.obl("SYM-4", "add", ev.b)
                 if amt is None or not is_const(amt, 1) or not is_const(init, 0):
                     eng.violate("SYM-4", "insert-not-plus-one", "recording a link changes its count by something other than +1 from a 0 start (%s)" % show(v)[:80], ev.b, st)
                 st = rem(st, lambda g: g == f)
@@ -151,6 +154,8 @@ class AdoptSchema:
         if any(f[0] == "unwinding" for f in st.flags):
             return None
         self.paths += 1
+        eng.obl("SYM-1" if self.which == "adopt" else "SYM-2", "return", ev.b)
+        eng.obl("EFF-3", self.which, ev.b)
         ops = sorted(((f[1], f[2], f[3], f[4], f[5]) for f in st.flags if f[0] == "top"), key=repr)
         same = ("eq", ("param", 1), ("param", 2)) in st.rel or ("eq", ("param", 2), ("param", 1)) in st.rel
         diff = ("ne", ("param", 1), ("param", 2)) in st.rel or ("ne", ("param", 2), ("param", 1)) in st.rel
@@ -194,6 +199,7 @@ class Purge:
         if v == "1":
             E = mk_field(("variant", inner, "Some", 1), "0", "")
             self.elems.add(b)
+            eng.obl("SYM-3", "peer-entry", b)
             return add(st, ("purge_pending", E, b))
         if v == "0":
             return add(st, ("purged", self.self_box))
@@ -243,6 +249,7 @@ class Getters:
         b = self.self_box
         self.paths += 1
         n = self.name
+        eng.obl("TS-8", n, ev.b)
         if n in ("Weak::strong_count", "Weak::weak_count") and is_const(v, 0):
             return None
         g = counter_read(v)
@@ -310,6 +317,7 @@ class ApiSpec:
             return None
         self.paths += 1
         n, v, b = self.name, ev.value, self.self_box
+        eng.obl("API-1", n, ev.b)
         flags = st.flags
         sets = [f for f in flags if f[0] in ("killed", "decw", "cnt_own_dec")]
         if n == "Rc::try_unwrap":
@@ -449,6 +457,7 @@ class Forward:
             return None
         self.paths += 1
         name = short(self.fn.path)
+        eng.obl("FWD-1", name, ev.b)
         v = ev.value
         if self.trait in FWD_TRAITS:
             res = [f[1] for f in st.flags if f[0] == "fwd_res"]
